@@ -12,6 +12,13 @@ JOBS = int(os.environ.get("VERIF_JOBS", "0") or 0) or min(16, os.cpu_count() or 
 
 def _init(sync_threads):
     env.install(silence=True, sync_threads=sync_threads)
+    # a runaway case (e.g. a Section merged into itself) must end in MemoryError, not in swapping
+    try:
+        import resource
+        lim = int(os.environ.get("VERIF_WORKER_MEM_GB", "3")) * (1 << 30)
+        resource.setrlimit(resource.RLIMIT_AS, (lim, lim))
+    except Exception:
+        pass
 
 
 def _call(packed):
@@ -72,11 +79,18 @@ def run_cases_chunk(packed):
     out = {"evaluations": 0, "states": 0, "transitions": 0, "nontrivial": 0,
            "outcomes": collections.Counter(), "failures": [], "samples": []}
     seen = {}
+    timeouts = 0
     for case in cases:
+        if timeouts >= 2:
+            # two cases of this chunk did not terminate: do not burn the budget on the rest
+            out.setdefault("skipped_after_timeouts", 0)
+            out["skipped_after_timeouts"] += 1
+            continue
         env.reset_globals(env.SEED)
         try:
             res = env.with_watchdog(lambda: mod.run_case(case), getattr(mod, "WATCHDOG_S", 20))
         except env.Timeout:
+            timeouts += 1
             from .report import failure
             res = {"failures": [failure("watchdog", {"clause": "did-not-terminate",
                                                      "layer": case.get("layer") if isinstance(case, dict) else None},
